@@ -15,18 +15,20 @@ def pick(p, ids, hdir=None):
     return out
 LEVEL = "proof"
 UNITS = [dict(id="library_loader", harness="loader.c", entry="h_loader", sources=["plibraryloader-posix.c"], enforce=None, replace=[], canaries=2, timeout=300,
-              functions=["p_library_loader_new", "p_library_loader_free", "p_library_loader_get_symbol"])] + \
-    pick("C01", ["mutex_new_free"]) + pick("C02", ["posix_new_free"]) + pick("C03", ["cond_new_free"]) + pick("C05", ["unref", "local_new_free", "get_tls_key", "create_full"]) + \
+              functions=["p_library_loader_new", "p_library_loader_free", "p_library_loader_get_symbol"]),
+         dict(id="libsys_init_shutdown", harness="main.c", entry="h_init_shutdown", sources=["pmain.c"], enforce=None, replace=[], canaries=2, timeout=300, cbmc_flags=["--unwind", "17", "--unwinding-assertions"],
+              functions=["p_libsys_init", "p_libsys_init_full", "p_libsys_shutdown"], bound="call-count loops of the harness (1..3 repetitions) and the 16-entry log fully unwound: complete for those repetition counts")] + \
+    pick("C01", ["mutex_new_free"]) + pick("C02", ["posix_new_free"]) + pick("C03", ["cond_new_free"]) + pick("C05", ["unref", "local_new_free", "get_tls_key", "create_full", "create_internal", "init_shutdown"]) + \
     pick("C06", ["new", "free", "lemma_recovery"]) + pick("C07", ["new", "free", "take_ownership_free"]) + pick("C08", ["new_free_own"]) + \
     pick("C10", ["new", "accept", "close", "getters_and_free", "connect"], "sock") + pick("C11", ["dispatch"]) + pick("C17", ["new_text"]) + \
-    pick("C18", ["dir", "error", "rwlock_general_new", "pmem_vtable"])
+    pick("C18", ["dir", "error", "rwlock_general_new", "pmem_vtable", "ini_parse_allocfail", "ini_getter_allocfail_0", "ini_getter_allocfail_1", "ini_getter_allocfail_2", "ini_getter_allocfail_3", "tree_new", "hash_table_new", "time_profiler_new", "spinlock_new", "hash_ctx_md5", "hash_ctx_sha1", "hash_ctx_sha2_256", "hash_ctx_sha2_512", "hash_ctx_sha3_256", "hash_ctx_gost3411"])
 REQUIRE_CONFIGURED = ["plibraryloader-posix.c", "psocket.c", "pshm-posix.c", "psemaphore-posix.c"]
 TECHNIQUE = "CBMC contracts with a resource ledger in the environment models (heap blocks via allocation counters, descriptors, mappings, IPC names, native handles): per constructor/destructor pair and every error exit the ledger delta is a postcondition"
 LEVEL_TEXT = ("Per object kind, on the real code, for every outcome of every native call and with every allocation allowed to fail: a failed constructor leaves the ledger unchanged (no block, no "
               "descriptor, no mapping, no name created by the call); a successful one holds exactly what the object records; the destructor gives exactly that back -- descriptor closed exactly once "
               "(sockets incl. accept's error exits, shm descriptor closed right after mapping on all exits), munmap with the mapped length, shm/semaphore names unlinked by the owner only, native "
               "mutex/cond/rwlock/TLS/dl handles destroyed or closed once. Units are shared with C06/C07/C08/C10/C11/C17/C18 (same obligations, run under this property as well). Neutrality of "
-              "an arbitrary call sequence is the sum over objects (paper step). Loop-free or loop-contracted units; the library-loader unit is new here.")
+              "an arbitrary call sequence is the sum over objects (paper step). Loop-free or loop-contracted units; the library-loader and p_libsys_init/shutdown units are new here.")
 LEVEL_NOTE = ("Covered object kinds: sockets, shared memory (+ lock semaphore), semaphores, shm buffer, mutex/cond/rwlock, TLS keys, thread handles (reference count), hash objects, socket addresses "
-              "from text (addrinfo), directories, errors, library loader. Container pairs (trees, lists, tables, INI) are bounded and run under C12/C15/C16/C18. Bounded units inside this check (never counted as proved): c18_dir and c18_error (names/messages of a few characters), c11_dispatch (hex loop unwound to its fixed maximum, complete). NOT covered: p_libsys_init/shutdown "
-              "as a whole, p_file/p_process, time profiler. Trusted: the ledger models in env/. The input regions of the known findings of C07 (existing segment of size 0) and C08 (existing buffer opened with a smaller size) are excluded from the shared units here; they are decided and reported under C07/C08.")
+              "from text (addrinfo), directories, errors, library loader, native thread handle (attribute object destroyed once), tree/hash table/spinlock/profiler/hash-context constructors, INI parse and getters. Container pairs (trees, lists, tables, INI) are bounded and run under C12/C15/C16/C18. Bounded units inside this check (never counted as proved): c18_dir and c18_error (names/messages of a few characters), c18_ini_* (INI parse of '[s]' + one 4-byte line; getters on one fixed object), c11_dispatch (hex loop unwound to its fixed maximum, complete). p_libsys_init/shutdown: pairing and order over call-log stubs (unit libsys_init_shutdown) plus the real p_uthread_init/shutdown (c05_init_shutdown); the other subsystem "
+              "init/shutdown functions are empty on this configuration and are not verified. NOT covered: p_file/p_process; tree/hash-table/list container pairs beyond their constructors. Trusted: the ledger models in env/. The input regions of the known findings of C07 (existing segment of size 0) and C08 (existing buffer opened with a smaller size) are excluded from the shared units here; they are decided and reported under C07/C08.")
